@@ -250,6 +250,7 @@ public:
 void input_buffer::grow( size_type minimum_size ) {
     size_type old_size = array_size;
     size_type new_size = old_size ? 2*old_size : initial_buffer_size;
+    __TBB_VERIF_PROBE(new_size<minimum_size ? "pipeline:grow-more-than-double" : old_size ? "pipeline:grow" : "pipeline:grow-initial");
     while( new_size<minimum_size )
         new_size*=2;
     task_info* new_array = cache_aligned_allocator<task_info>().allocate(new_size);
